@@ -169,8 +169,10 @@ def finish(ctx, level='other'):
             kf.append((f, hit))
         else:
             viol.append(f)
+    quiet = bool(os.environ.get('PVERIF_NO_EVIDENCE'))
     outdir = os.path.join(VERIF, 'out', ctx.prop)
-    os.makedirs(outdir, exist_ok=True)
+    if not quiet:
+        os.makedirs(outdir, exist_ok=True)
     seen = set()
     for f, hit in kf:
         tag = (hit.get('id'), f.key)
@@ -185,13 +187,15 @@ def finish(ctx, level='other'):
             continue
         printed.add(f.key)
         path = os.path.join(outdir, f.digest + '.json')
-        with open(path, 'w') as fh:
-            json.dump(f.to_json(), fh, indent=1, default=str)
+        if not quiet:
+            with open(path, 'w') as fh:
+                json.dump(f.to_json(), fh, indent=1, default=str)
         print(f.line())
         if f.witness is not None:
             print('    witness: %s' % json.dumps(f.witness, default=str)[:600])
         print('VIOLATION property=%s replay=%s' % (ctx.prop, path))
-    write_evidence(ctx, level, len(printed), len(seen))
+    if not quiet:
+        write_evidence(ctx, level, len(printed), len(seen))
     nob = len(ctx.obligations)
     nok = sum(1 for o in ctx.obligations if o['ok'])
     print('%s %s: %d obligations, %d discharged, %d evaluations, '
